@@ -567,7 +567,8 @@ func c13Message(c *fw.Case, n *chain.Node, dk *distEnv, mc gen.MinterConfig, aut
 		}
 		return &disttypes.MsgUpdateSubDistributorBurnShareParam{Authority: authority, SubDistributorName: name, BurnShare: share}, "distributor.UpdateBurnShare/" + share.String()
 	default:
-		denom := []string{"uc4e", "foo", "newdenom", "", "a", "!"}[r.Intn(6)]
+		denoms := []string{"uc4e", "foo", "newdenom", "", "a", "!", " uvest", "uvest ", "uvest\n", "\tfoo", " ", distDenoms[2], "UVEST", "u vest"}
+		denom := denoms[r.Intn(len(denoms))]
 		return &vesttypes.MsgUpdateDenomParam{Authority: authority, Denom: denom}, fmt.Sprintf("vesting.UpdateDenomParam/%q", denom)
 	}
 }
